@@ -290,7 +290,7 @@ function setLen(o,n){if(Array.isArray(o)){o.length=n;return}var ks=Object.keys(o
 function put(o,i,v){o[i]=v;if(!Array.isArray(o)&&o.length<=i)o.length=i+1}
 function build(kind,spec){ // spec elems: "_" hole | number | "u" | ["t",id] | ["acc",v] | ["nc",v]
  var a=(kind.indexOf("arraylike")===0)?{}:[];
- if(kind==="sparse"||kind==="sparse-frozen"){a[70000]=1;delete a[70000];a.length=0}
+ if(kind==="sparse"||kind==="sparse-frozen"||kind==="sparse-nonext"){a[70000]=1;delete a[70000];a.length=0}
  for(var i=0;i<spec.length;i++){var s=spec[i];if(s==="_")continue;
   if(s==="u")a[i]=undefined;else if(typeof s==="number")a[i]=s;
   else if(s[0]==="t")a[i]=new TAG(s[1]);
@@ -298,6 +298,7 @@ function build(kind,spec){ // spec elems: "_" hole | number | "u" | ["t",id] | [
   else if(s[0]==="nc")Object.defineProperty(a,i,{value:s[1],writable:true,enumerable:true,configurable:false});}
  if(Array.isArray(a)){ if(a.length<spec.length) a.length=spec.length } else { a.length=spec.length; Object.setPrototypeOf(a,Array.prototype); a[Symbol.isConcatSpreadable]=true }
  if(kind==="frozen"||kind==="arraylike-frozen"||kind==="sparse-frozen")Object.freeze(a);
+ if(kind==="nonext"||kind==="arraylike-nonext"||kind==="sparse-nonext")Object.preventExtensions(a);
  return a}
 function runCase(kind,spec,meth,argsSrc){
  var r=build(kind,spec);var out,err="";
@@ -364,6 +365,9 @@ func runMeth(js string) string {
 	if c.Kind == "frozen" {
 		refKind = "arraylike-frozen"
 	}
+	if c.Kind == "nonext" {
+		refKind = "arraylike-nonext"
+	}
 	ref := one(refKind)
 	twin := "-"
 	switch c.Kind {
@@ -371,6 +375,8 @@ func runMeth(js string) string {
 		twin = one("sparse")
 	case "frozen":
 		twin = one("sparse-frozen")
+	case "nonext":
+		twin = one("sparse-nonext")
 	}
 	return subj + " @@ " + ref + " @@ " + twin
 }
